@@ -50,6 +50,10 @@ struct shared {
     char notes[16][400];
     long long info_hdr_mismatch;
     char info_hdr_first[400];
+    long long acct_findings;    /* accounting findings (signatures with "end:"), whatever --acct says */
+    long long suppressed;       /* findings not reported because of --acct */
+    int nacct_notes;
+    char acct_notes[4][500];
 };
 static struct shared *G;
 
@@ -59,6 +63,8 @@ static bool g_thorough = false;
 static const char *g_replay = NULL;
 static bool g_verbose = false;
 static bool g_strict_header = false;
+enum { ACCT_VIOLATIONS, ACCT_NOTES, ACCT_ONLY };
+static int g_acct = ACCT_NOTES; /* what to do with accounting findings (leaks, references: outside the C17 statement) */
 static long long g_resume = 0;   /* first case index to execute (after a crash) */
 static long long g_idx = 0;      /* running case index of the enumeration */
 static const char *g_mode = "";
@@ -110,6 +116,27 @@ static void add_note(const char *fmt, ...)
 /* violation: counted always, printed for the first two cases of each signature */
 static void viol(const char *sig, const char *caseid, const char *fmt, ...)
 {
+    bool acct = strstr(sig, "end:") != NULL;
+    if (acct)
+        G->acct_findings++;
+    if (acct ? g_acct == ACCT_NOTES : g_acct == ACCT_ONLY) {
+        G->suppressed++;
+        if (acct) {
+            /* a few NOTE lines, one per signature */
+            for (int i = 0; i < G->nacct_notes; i++)
+                if (!strncmp(G->acct_notes[i], sig, strlen(sig)) && G->acct_notes[i][strlen(sig)] == ' ')
+                    return;
+            if (G->nacct_notes < 4) {
+                char m[380];
+                va_list ap;
+                va_start(ap, fmt);
+                vsnprintf(m, sizeof(m), fmt, ap);
+                va_end(ap);
+                snprintf(G->acct_notes[G->nacct_notes++], 500, "%s first case %s: %s", sig, caseid, m);
+            }
+        }
+        return;
+    }
     G->violations++;
     int k;
     for (k = 0; k < G->nsig; k++)
@@ -620,7 +647,11 @@ static void t2_main(void)
     char sig[64];
     const char *m = fix_fini(&t2_fx, sig, sizeof(sig));
     if (m && !G->expired)
-        viol("t2:fixture-not-clean", "-", "%s", m);
+        {
+        char sg[96];
+        snprintf(sg, sizeof(sg), "t2:%s", sig);
+        viol(sg, "-", "%s", m);
+    }
 }
 
 static bool t2_replay(const char *id)
@@ -967,7 +998,7 @@ static void t1_run(const struct t1case *c)
     uref_free(keep);
     uref_free(u);
     if (t1_fx.cumem.nlive != live0 || t1_fx.pxu.nlive != ulive0)
-        T1_VIOL("leak", "%d memory area(s) / %d uref(s) still allocated after the frame was released", t1_fx.cumem.nlive - live0,
+        T1_VIOL("end:leak", "%d memory area(s) / %d uref(s) still allocated after the frame was released", t1_fx.cumem.nlive - live0,
                 t1_fx.pxu.nlive - ulive0);
 #undef T1_VIOL
 }
@@ -1085,7 +1116,11 @@ static void t1_main(void)
     char sig[64];
     const char *m = fix_fini(&t1_fx, sig, sizeof(sig));
     if (m && strcmp(sig, "end:umem-leaked")) /* leaks are reported by the case that caused them */
-        viol("t1:fixture-not-clean", "-", "%s", m);
+        {
+        char sg[96];
+        snprintf(sg, sizeof(sg), "t1:%s", sig);
+        viol(sg, "-", "%s", m);
+    }
 }
 
 static bool t1_replay(const char *id)
@@ -1986,7 +2021,6 @@ static bool check_against_ref(const struct stream *st, struct run *ref, struct r
     if (r->fini_msg[0]) {
         snprintf(sig, sizeof(sig), "t3:%s:%s", cn, r->fini_sig);
         viol(sig, id, "%s", r->fini_msg);
-        return false;
     }
     struct c17_sink *a = &ref->sink, *b = &r->sink;
     if (a->nau != b->nau)
@@ -2536,6 +2570,10 @@ int main(int argc, char **argv)
             g_verbose = true;
         else if (!strcmp(argv[i], "--strict-header"))
             g_strict_header = true;
+        else if (!strcmp(argv[i], "--acct") && i + 1 < argc) {
+            const char *a = argv[++i];
+            g_acct = !strcmp(a, "violations") ? ACCT_VIOLATIONS : !strcmp(a, "only") ? ACCT_ONLY : ACCT_NOTES;
+        }
         else {
             fprintf(stderr, "unknown argument %s\n", argv[i]);
             return 2;
@@ -2556,6 +2594,9 @@ int main(int argc, char **argv)
             printf("NOTE cannot parse case id %s\n", g_replay);
             return 2;
         }
+        for (int i = 0; i < G->nacct_notes; i++)
+            v_note("accounting finding (outside the C17 statement, see --acct): %s", G->acct_notes[i]);
+        v_stat("accounting_findings", G->acct_findings);
         printf("NOTE replay of %s: %lld violation(s)\n", g_replay, G->violations);
         v_stat("violations", G->violations);
         return 0;
@@ -2630,6 +2671,10 @@ int main(int argc, char **argv)
     if (G->info_hdr_mismatch)
         v_note("b.header (header size) after convert_frame differs from the new offset of the first VCL NAL in %lld case(s), first: %s",
                G->info_hdr_mismatch, G->info_hdr_first);
+    for (int i = 0; i < G->nacct_notes; i++)
+        v_note("accounting finding (outside the C17 statement, see --acct): %s", G->acct_notes[i]);
+    v_stat("accounting_findings", G->acct_findings);
+    v_stat("findings_suppressed_by_acct", G->suppressed);
     v_stat("states", G->states);
     v_stat("transitions", G->transitions);
     v_stat("executions", G->executions);
